@@ -27,6 +27,12 @@ NPROC = int(os.environ.get("VERIF_NPROC", "16"))
 OUT_DIR = os.environ.get("VERIF_OUT_DIR", VERIF_DIR)
 
 
+# thorough tier: multipliers on the per-sub-check thorough budgets, set from the measured run times of the first
+# complete thorough run so that every thorough check takes roughly 10-25 minutes on 16 cores
+THOROUGH_MULT = {"C01": 2, "C02": 2, "C03": 6, "C04": 8, "C05": 6, "C06": 3, "C07": 10, "C08": 8, "C09": 6, "C10": 8,
+                 "C11": 8, "C12": 1, "C13": 8, "C14": 8, "C15": 8, "C16": 10, "C17": 10, "C18": 3, "C19": 1, "C20": 3}
+
+
 class HarnessError(Exception):
     """An error of the checking machinery itself (never a violation)."""
 
@@ -420,6 +426,8 @@ def run_check(check_id, tier, seed, only_sub=None):
     tasks = []
     for sub in subs:
         n = int(sub.budget.get(tier, sub.budget.get("quick", 100)))
+        if tier == "thorough" and sub.cases is None:
+            n = int(n * THOROUGH_MULT.get(check_id, 1))
         n = max(1, int(n * float(os.environ.get("VERIF_BUDGET_SCALE", "1"))))
         nshards = min(sub.nproc or NPROC, NPROC)
         if sub.cases is None:
